@@ -165,3 +165,130 @@ def oblig_fields(r):
     if isinstance(r, Ref):
         return tuple(x[1] for x in r.path if x and x[0] == "field")
     return None
+
+
+# ------------------------------------------------------------------ Path::is_prefix_of
+
+def _full_deref(e, st, v, depth=6):
+    from summaries import deref_val
+    for _ in range(depth):
+        if isinstance(v, Ref):
+            v = deref_val(e, st, v)
+        else:
+            break
+    return v
+
+
+def s_cstr_cmp(e, st, callee, args, dty):
+    """PartialEq on (references to) components: components are modelled as symbolic 8-bit identities"""
+    a, b = _full_deref(e, st, args[0]), _full_deref(e, st, args[1])
+    if isinstance(a, Int) and isinstance(b, Int):
+        eq = a.t == b.t
+        return Bool(z3.Not(eq) if callee.endswith("::ne") else eq)
+    return NotImplemented
+
+
+def mkpath(name, n):
+    """Path value with n components: linked list through Option<Arc<Path>> parents, component i = symbolic identity"""
+    from mirsym import EnumV
+    p = None
+    comps = []
+    for i in range(n):
+        par = EnumV("Option", "Some", 1, {0: Agg("Arc", {0: p})}) if p is not None else EnumV("Option", "None", 0, {})
+        c = z3.BitVec("%s%d" % (name, i), 8)
+        comps.append(c)
+        p = Agg("Path", {0: par, 1: Int(c, "u8")})
+    return p, comps
+
+
+def prefix_driver_search():
+    """native: real Path::is_prefix_of against the component-wise definition on short paths"""
+    drv = path_driver()
+    ps = short_paths("ab", 4, absolute=True) + short_paths("ab", 3)
+    found = None
+    lines = ["P %s %s" % (hx(a), " ".join(hx(b) for b in ps)) for a in ps]
+    out = drv.run(PATH_TEST, lines, "pfx")
+    for a, l in zip(ps, out):
+        ca = [c for c in a.split("/")] if not a.startswith("/") else ["/"] + a[1:].split("/")
+        for b, bit in zip(ps, l.split()):
+            cb = [c for c in b.split("/")] if not b.startswith("/") else ["/"] + b[1:].split("/")
+            want = len(ca) <= len(cb) and cb[:len(ca)] == ca
+            if (bit == "1") != want:
+                return {"a": a, "b": b, "real": bit == "1", "documented": want}
+    return found
+
+
+def is_prefix_of_obligation(rep, prog):
+    import listsum
+    import optsum
+    import summaries
+    f = prog.method("Path", "is_prefix_of")
+    ip, ic = prog.src.field_index("Path", "parent"), prog.src.field_index("Path", "component")
+    o = Obligation("Path::is_prefix_of(a, b) iff a has at most as many components as b and every component of a equals the component of b at the same position",
+                   "E2 mirsym/z3 (paths as linked component lists)", [], "paths of 1..3 components each (9 shape pairs), component identities symbolic")
+    o.key = "path:is_prefix_of"
+    if (ip, ic) != (0, 1):
+        o.verdict, o.detail = "inconclusive", "field order of Path changed"
+        rep.add(o)
+        return
+    ex = dict(optsum.SUMMARIES)
+    ex.update(listsum.LIST)
+    ex[r"SmallVec(::<.*>)?::new$"] = listsum.s_vec_new
+    ex[r"SmallVec(::<.*>)?::push$"] = summaries.s_vec_push
+    ex[r"^<&*(std::ffi::|core::ffi::)?C(Str|String) as (std::cmp::)?PartialEq(<.*>)?>::(eq|ne)$"] = s_cstr_cmp
+    verdict, detail, npaths, nq = "holds", "", 0, 0
+    enc = {}
+    for na in (1, 2, 3):
+        for nb in (1, 2, 3):
+            eng = oblig.engine(prog, inline=oblig.module_inliner(prog, "path.rs", r"^$"), extra=ex, unroll=8)
+            A, ca = mkpath("a", na)
+            B, cb = mkpath("b", nb)
+            ps = eng.run(f, args=[Ref("A", (), False), Ref("B", (), False)], mem={"A": A, "B": B})
+            enc.update(eng.encoded)
+            want = z3.And(z3.BoolVal(na <= nb), *[ca[i] == cb[i] for i in range(min(na, nb))])
+            for p in ps:
+                npaths += 1
+                if p.status in ("abort", "bound"):
+                    verdict, detail = "inconclusive", "shape %d/%d: path %s %s" % (na, nb, p.status, p.note[:120])
+                    continue
+                if p.status != "return":
+                    got = None
+                else:
+                    got = p.result.t if isinstance(p.result, Bool) else None
+                hav = [ev for ev in p.events if isinstance(ev.ret, Bool) and z3.is_const(ev.ret.t) and str(ev.ret.t).startswith("h")]
+                nq += 1
+                bad = eng.check(*(list(p.pc) + ([got != want] if got is not None else [])))
+                if bad == z3.sat:
+                    eng.solver.push(); eng.solver.add(*p.pc)
+                    if got is not None:
+                        eng.solver.add(got != want)
+                    eng.solver.check(); m = eng.solver.model(); eng.solver.pop()
+                    verdict = "violated"
+                    detail = "paths of %d and %d components: is_prefix_of %s where the definition says %s (model %s)" % (
+                        na, nb, "panics" if got is None else "disagrees", "...", {str(d): m[d] for d in m.decls()[:8]})
+                    o.cex = {"components_a": na, "components_b": nb, "havocked_calls": [ev.callee for ev in hav][:4]}
+                    break
+            if verdict == "violated":
+                break
+        if verdict == "violated":
+            break
+    o.functions = sorted("%s#%s" % (k[-60:], v) for k, v in enc.items())
+    o.queries = nq
+    o.stats = {"paths": npaths, "states": npaths, "transitions": nq}
+    o.verdict, o.detail = verdict, detail
+    if verdict == "holds" and npaths == 0:
+        o.verdict, o.detail = "inconclusive", "vacuous"
+    if o.verdict == "violated":
+        try:
+            dev = prefix_driver_search()
+        except Exception as ex_:   # noqa
+            dev = None
+            o.detail += " (native driver: %s)" % str(ex_)[-200:]
+        if dev:
+            o.stats["traces_validated"] = 1
+            o.cex = dict(o.cex or {}, native=dev)
+            o.detail += "; replayed natively: real Path(%r).is_prefix_of(Path(%r)) = %s, by definition %s" % (dev["a"], dev["b"], dev["real"], dev["documented"])
+        else:
+            o.verdict = "inconclusive"
+            o.detail += "; the real is_prefix_of agrees with the definition on all short paths"
+    rep.add(o)
